@@ -957,10 +957,17 @@ func (g *G) Scenario(k int) []*S {
 		a, b := g.smallInt()-5, g.nonZero()
 		return []*S{Asg("a", I(a)), Asg("b", I(b)), Asg("m", Bin(Nm("a"), "%", Nm("b"))), Asg("q", Bin(Nm("a"), "//", Nm("b"))),
 			Asg("m2", Bin(I(a), "%", I(b))), Asg("r", &E{K: "ch", A: []*E{Nm("a")}, Ops: []ChainOp{{Op: "//", E: Nm("b")}, {Op: "*", E: Nm("b")}, {Op: "+", E: Nm("a")}, {Op: "%", E: Nm("b")}}})}
+	case 13: // a sum used twice as the left operand of further sums (its capacity must be exactly its length)
+		n := 1 + g.r.Intn(6)
+		return []*S{Asg("a", g.ints(n)), Asg("x", Bin(Nm("a"), "+", g.ints(1+g.r.Intn(3)))),
+			Asg("y", Bin(Nm("x"), "+", g.L(I(55)))), Asg("z", Bin(Nm("x"), "+", g.L(I(66))))}
+	case 14: // repetition and the same
+		return []*S{Asg("a", g.ints(1 + g.r.Intn(3))), Asg("x", Bin(Nm("a"), "*", I(1+g.r.Intn(3)))),
+			Asg("y", Bin(Nm("x"), "+", g.L(I(55)))), Asg("z", Bin(Nm("x"), "+", g.L(I(66)))), IdxAsg("x", I(0), I(99))}
 	case 12: // mutation while a slice of the same list is being iterated / sorted copies in loops
 		return []*S{Asg("a", g.ints(4)), Asg("out", g.L()), For([]string{"x"}, Sl(Nm("a"), I(1), nil), IdxAsg("a", I(2), I(0)), Aug("out", g.L(Nm("x"))))}
 	}
 	return g.Program()
 }
 
-const nScenarios = 13
+const nScenarios = 15
